@@ -110,3 +110,19 @@ Example mat_qc_runs_J :
     (mtab 2 2 (double_center 2 (mof [[qz 0; qz 4]; [qz 4; qz 0]])))
     (mtab 2 2 (center_matrix 2 (mof [[qz 0; qz 4]; [qz 4; qz 0]]))) = true.
 Proof. vm_compute. reflexivity. Qed.
+
+(* ---------------- proving meq / veq at Qc by computation ---------------- *)
+Lemma meq_by_compute n m (A B : mat Qc) :
+  mlist_eqb (mtab n m A) (mtab n m B) = true -> meq n m A B.
+Proof. intros H. apply mtab_inj. apply mlist_eqb_ok. exact H. Qed.
+
+Lemma veq_by_compute n (x y : vec Qc) :
+  vlist_eqb (vtab n x) (vtab n y) = true -> veq n x y.
+Proof. intros H. apply vlist_eqb_ok in H. intros i Hi. exact (tab_inj n x y H i Hi). Qed.
+
+(* bounded universal quantifier by computation *)
+Lemma forall_lt_by_compute n (P : nat -> bool) :
+  forallb P (seq 0 n) = true -> forall i, (i < n)%nat -> P i = true.
+Proof.
+  intros H i Hi. rewrite forallb_forall in H. apply H. apply in_seq. lia.
+Qed.
